@@ -6,7 +6,7 @@ import itertools
 
 from mc import pool, wire, refms
 
-CHARS = ["a", '"', "\\", "\r", "\n", "\x00", "{", "}", "5", "+", "é", " "]
+CHARS = ["a", '"', "\\", "\r", "\n", "\x00", "{", "}", "5", "+", "é", " ", "\ufeff"]
 SPECIAL = ["", "{5}", "{5+}", "{5+}x", "{0+}", "{1+}\r\nx", "a" * 1025, 'a"\r\nLOGOUT', "a\r\nLOGOUT\r\n", "€\U0001F600", "{3}", "{3+}\r\nabc"]
 SIZES = [0, 1, 10, 2 ** 32 - 1, 2 ** 32, -1]
 
